@@ -1,7 +1,7 @@
 (** C11 — green threads: property theorems only (model: C11/Model.v, repaired scheduler). *)
 From Coq Require Import ZArith List.
 From ChibiV Require Import C11.Model C11.Invariant C11.SchedProofs C11.Theorems C11.Round2 C11.Sorted.
-From ChibiV Require C11.Prog C11.ProgProofs.
+From ChibiV Require C11.Prog C11.ProgProofs C11.Round4.
 Import ListNotations.
 
 Theorem queues_wellformed : forall s, reachable s ->
@@ -160,3 +160,95 @@ Theorem unlocked_sections_schedule_dependent :
   Prog.run 2000 (Prog.mkSl 2 0%Z :: ProgProofs.ones 200) ProgProofs.ex_unlocked = Prog.Finished [5%Z] [100%Z; 310%Z; 307%Z].
 Proof. exact ProgProofs.unlocked_sections_schedule_dependent_thm. Qed.
 Print Assumptions unlocked_sections_schedule_dependent.
+
+(** round 4: thread-terminate! of EVERY thread is an enabled operation (Model.enabled no longer excludes a paused victim with
+    a pending timeout), so `reachable` — and with it theorems 1-4, 15, 16 above — now ranges over all uses of the primitive. *)
+Theorem dead_threads_do_not_wait : forall s, reachable s ->
+  (forall t, live (th s t) = false -> waitp (th s t) = false /\ ~ In t (paused s)) /\
+  (forall t, In t (paused s) -> live (th s t) = true).
+Proof. exact Round4.dead_threads_do_not_wait_thm. Qed.
+Print Assumptions dead_threads_do_not_wait.
+
+Theorem terminate_paused_victim : forall s t, live (th s (cur s)) = true -> t <> cur s -> In t (paused s) ->
+  back s = last_opt (front s) ->
+  let s' := fst (thread_terminate s t) in
+  snd (thread_terminate s t) = false /\ cur s' = cur s /\
+  paused s' = remove1 t (paused s) /\ front s' = front s ++ [t] /\ back s' = Some t /\
+  th s' t = mkT false false false (ev (th s t)) (tsec (th s t)) (tusec (th s t)) /\
+  (forall y, y <> t -> th s' y = th s y) /\ mx s' = mx s.
+Proof. exact Round4.terminate_paused_victim_thm. Qed.
+Print Assumptions terminate_paused_victim.
+
+Theorem deadline_exact : forall x ds dus now,
+  let d := deadline x (TRel ds dus) now in
+  (Round4.instant (fst d) (snd d) = Round4.instant (fst now) (snd now) + Round4.instant ds dus)%Z /\
+  ((0 <= snd now < 1000000)%Z -> (0 <= dus < 1000000)%Z -> (0 <= snd d <= 1000000)%Z).
+Proof. exact Round4.deadline_exact_thm. Qed.
+Print Assumptions deadline_exact.
+
+Theorem timed_wait_not_early : forall s t ds dus now0 now,
+  (0 <= snd now0 < 1000000)%Z -> (0 <= dus < 1000000)%Z -> (0 <= snd now)%Z ->
+  before (th (insert_timed s t (TRel ds dus) now0) t) (fst now) (snd now) = true ->
+  (Round4.instant (fst now0) (snd now0) + Round4.instant ds dus <= Round4.instant (fst now) (snd now))%Z.
+Proof. exact Round4.timed_wait_not_early_thm. Qed.
+Print Assumptions timed_wait_not_early.
+
+(** round 4: fairness of the run queue without the premise "nothing is paused" of round_robin_fair *)
+Theorem scheduler_takes_front : forall s n1 n2 x rest, reachable s -> front s = x :: rest ->
+  let s' := scheduler true s n1 n2 in
+  cur s' = x /\ waitp (th s' x) = false /\ exists app, front s' = rest ++ app.
+Proof. exact Round4.scheduler_takes_front_thm. Qed.
+Print Assumptions scheduler_takes_front.
+
+Theorem round_robin_fair_general : forall pre clocks s t post, reachable s ->
+  front s = pre ++ t :: post -> length clocks = S (length pre) ->
+  cur (sched_calls clocks s) = t /\ waitp (th (sched_calls clocks s) t) = false.
+Proof. exact Round4.round_robin_fair_general_thm. Qed.
+Print Assumptions round_robin_fair_general.
+
+(** round 4: "a thread blocked on a mutex / condition variable is resumed once the awaited event has happened", scheduler level *)
+Theorem unlock_resumes_waiter : forall s m pre w post n1 n2, reachable s ->
+  live (th s (cur s)) = true -> waitp (th s (cur s)) = false ->
+  locked (mx s m) = true -> paused s = pre ++ w :: post -> ev (th s w) = EMutex m ->
+  (forall y, In y pre -> ev (th s y) <> EMutex m) ->
+  let s1 := fst (step true s (OUnlock m None TNone (0%Z, 0%Z))) in
+  let s2 := scheduler true s1 n1 n2 in
+  cur s2 = w /\ waitp (th s2 w) = false /\ live (th s2 w) = true.
+Proof. exact Round4.unlock_resumes_waiter_thm. Qed.
+Print Assumptions unlock_resumes_waiter.
+
+Theorem signal_resumes_waiter : forall s c pre w post n1 n2, reachable s ->
+  live (th s (cur s)) = true -> waitp (th s (cur s)) = false ->
+  paused s = pre ++ w :: post -> ev (th s w) = ECond c ->
+  (forall y, In y pre -> ev (th s y) <> ECond c) ->
+  let s1 := fst (step true s (OSignal c)) in
+  let s2 := scheduler true s1 n1 n2 in
+  cur s2 = w /\ waitp (th s2 w) = false /\ live (th s2 w) = true.
+Proof. exact Round4.signal_resumes_waiter_thm. Qed.
+Print Assumptions signal_resumes_waiter.
+
+Theorem runnable_thread_runs : forall s t, reachable s -> In t (front s) ->
+  exists k, (1 <= k <= length (front s))%nat /\
+    forall clocks, length clocks = k -> cur (sched_calls clocks s) = t /\ waitp (th (sched_calls clocks s) t) = false.
+Proof. exact Round4.runnable_thread_runs_thm. Qed.
+Print Assumptions runnable_thread_runs.
+
+Theorem ended_thread_resumes_joiner : forall s n1 n2 t, reachable s -> live (th s (cur s)) = false ->
+  In t (paused s) -> ev (th s t) = EThread (cur s) ->
+  let s1 := scheduler true s n1 n2 in
+  waitp (th s1 t) = false /\
+  (cur s1 = t \/
+   exists k, (1 <= k <= length (front s1))%nat /\
+     forall clocks, length clocks = k -> cur (sched_calls clocks s1) = t /\ waitp (th (sched_calls clocks s1) t) = false).
+Proof. exact Round4.ended_thread_resumes_joiner_thm. Qed.
+Print Assumptions ended_thread_resumes_joiner.
+
+Theorem expired_timed_wait_resumes : forall ops s tr n1 n2 t, Forall op_clock_ok ops ->
+  run true init ops = Some (s, tr) -> In t (paused s) -> before (th s t) (fst n1) (snd n1) = true ->
+  let s1 := scheduler true s n1 n2 in
+  waitp (th s1 t) = false /\
+  (cur s1 = t \/
+   exists k, (1 <= k <= length (front s1))%nat /\
+     forall clocks, length clocks = k -> cur (sched_calls clocks s1) = t /\ waitp (th (sched_calls clocks s1) t) = false).
+Proof. exact Round4.expired_timed_wait_resumes_thm. Qed.
+Print Assumptions expired_timed_wait_resumes.
